@@ -238,8 +238,8 @@ register('C16', title='edge recomputation',
 register('C17', title='interpolated phase',
          deciding=['extrema_interpolated_phase'],
          rule='exhaustive: every placement of an alternating extremum sequence (both starting kinds, >= 2 extrema, gaps >= 2) on arrays of '
-              'length 3..N (N=13 quick, 19 thorough), without midpoints, with every admissible midpoint position per flank and with only the rises / only the decays of each such assignment (inclusive of the '
-              'flank ends; completely while the product of choices <= 64 / 2048, otherwise all-first / all-middle / all-last - counted); '
+              'length 3..N (N=13 quick, 17 thorough), without midpoints, with every admissible midpoint position per flank and with only the rises / only the decays of each such assignment (inclusive of the '
+              'flank ends; completely while the product of choices <= 64 / 1024, otherwise all-first / all-middle / all-last - counted); '
               'generated: cyclepoints from find_extrema / find_zerox on all families (adversarial tails over-sampled), boundary in {0,1,5}, all '
               'first_extrema values, with and without midpoints. Oracle: the clauses of the statement evaluated on the returned array (length, '
               'finite exactly on [first, last cyclepoint], |phase| <= pi, anchors 0 / +-pi / -+pi/2, no decrease except into/out of a trough). '
